@@ -33,7 +33,7 @@ FLOOR = {'quick': 3000, 'thorough': 30000}
 SPACE = {'quick': '145 shapes x 6 placements x 5 docformats; ordered pairs of a 40-shape collision subset (module scope, epytext + reST); 45 file-level items; 8 multi-file items',
          'thorough': 'quick + all ordered pairs of all shapes in {module, class} x {epytext, reST, google}'}
 JOB_TIMEOUT = 2400
-CAP = {'quick': 400.0, 'thorough': 3000.0}
+CAP = {'quick': 900.0, 'thorough': 3600.0}
 BATCH = 20
 RUN_TIMEOUT = 150
 # CPU seconds allowed to one in-process run: the slowest shape of the alphabet needs 0.8 s on the unchanged tree, most 0.1 s
